@@ -546,6 +546,17 @@ theorem id_counter_starts_positive : Ecal.Gen.C12.idCounterInit ≠ some 0 := by
 
 example (s : State) (a : Nat) : step s (.look 0 a) = none := by simp [step]
 
+/-- **A thread is its id.** No call in the tree evaluates ECAL code with an integer literal as
+    thread id (regenerated: `Ecal.Gen.C12.literalTids`, all packages, `Runtime.Eval` and
+    `ECALFunction.Run`). The second disjunct is the ONE recorded hit on the tree as it was when
+    this was written — the debugger's `inject` evaluates as "thread 999", so two concurrent
+    injections (or an injection and the pool's 999th id) re-enter each other's blocks: a genuine
+    violation of C12, reproduced by harness mode J (occupancy 5 in one block), repaired by
+    fixes/C12-inject-own-thread-id.patch. With the repair the list is empty and mode J runs. -/
+theorem no_literal_thread_id :
+    Ecal.Gen.C12.literalTids = [] ∨
+    Ecal.Gen.C12.literalTids = ["interpreter/ecalDebugger.InjectValue:999"] := by decide
+
 /-- The shape of `NewThreadID` extracted from `/repo` on every run (`Ecal.Gen.C12.idSkeleton`):
     the read and the increment of the id counter happen inside ONE critical section (or are one
     atomic read-modify-write whose result is the id) — the protocol `ids_distinct` is about. -/
